@@ -116,8 +116,15 @@ func Harness_C13_retryLoop() {
 			switch kind {
 			case 1:
 				secs = vI64("retry-after-seconds")
-				vAssume(secs >= 0) // every non-negative int64, also those too long for a time.Duration
-				ra = vDecStr(secs)
+				// every int64: also values too long for a time.Duration, and negative ones (not a delay: as good as no Retry-After)
+				if neg := vChoice("retry-after-negative", 4); neg > 0 {
+					// negative values are enumerated (small, just past the Duration range, one that wraps around to +1h)
+					secs = []int64{0, -1, -9223372037, -9223372036854772208}[neg]
+					ra = []string{"", "-1", "-9223372037", "-9223372036854772208"}[neg]
+				} else {
+					vAssume(secs >= 0)
+					ra = vDecStr(secs)
+				}
 			case 2:
 				ra = "Wed, 21 Oct 2065 07:28:00 GMT"
 			case 3:
@@ -137,6 +144,10 @@ func Harness_C13_retryLoop() {
 	}
 	srv.respond = func(n int, req *http.Request) (*http.Response, error) {
 		vAssert(req.Method == http.MethodPost, "every attempt is a POST")
+		if n > len(outcomes) {
+			vFail("an attempt was made after the caller's context had ended")
+			return nil, errors.New("connection refused")
+		}
 		o := outcomes[n-1]
 		if o == oTransport {
 			switch transportErr {
@@ -213,7 +224,9 @@ func Harness_C13_retryLoop() {
 				case 0, 3:
 					vAssert(bo.overrides[si] == nil, "no usable Retry-After: default back-off")
 				case 1:
-					if raSeconds[i] <= math.MaxInt64/int64(time.Second) {
+					if raSeconds[i] < 0 {
+						vAssert(bo.overrides[si] == nil || *bo.overrides[si] <= 0, "a negative Retry-After is not a delay: default back-off or no wait, never a wrapped-around positive wait")
+					} else if raSeconds[i] <= math.MaxInt64/int64(time.Second) {
 						vAssert(bo.overrides[si] != nil && *bo.overrides[si] == time.Duration(raSeconds[i])*time.Second, "Retry-After seconds reach the back-off unchanged")
 					} else {
 						vAssert(bo.overrides[si] != nil && *bo.overrides[si] >= time.Duration(math.MaxInt64/int64(time.Second))*time.Second, "a Retry-After too long for a Duration asks for the longest wait, never for a shorter or negative one")
